@@ -12,6 +12,7 @@ import (
 	"encoding/json"
 	"fmt"
 	"math"
+	"strconv"
 	"strings"
 	"sync"
 	"time"
@@ -57,6 +58,11 @@ type pathRec struct {
 	W int64   `json:"w"`
 }
 
+type selfRec struct {
+	P []int64 `json:"p"`
+	W ext     `json:"w"`
+}
+
 type yenRec struct {
 	S   int   `json:"s"`
 	T   int   `json:"t"`
@@ -76,6 +82,9 @@ type gcase struct {
 	AnyNeg      bool          `json:"anyneg"`
 	NegEdgeFrom []bool        `json:"negedgefrom"`
 	AnyNegEdge  bool          `json:"anynegedge"`
+	Src         []int         `json:"src"`        // src[s-1]: the node From() of a tree for source s must return
+	SelfAbsent  []selfRec     `json:"selfabsent"` // legal answers of Between(a, a) for the absent id a
+	Orders      [][]int64     `json:"orders"`     // tie-rich family: node orders for containers with a deterministic node order
 	Sink        []bool        `json:"sink"`
 	ZCyc        bool          `json:"zcyc"` // the graph has a zero-weight cycle
 	SP          [][][][]int64 `json:"sp"`
@@ -116,12 +125,18 @@ type checker struct {
 	kind  string
 	view  string
 	fails int
+	tag   string // prefix of the signatures of a stage ("ties:")
+	nreps int    // repetitions of a randomised query (0: the default rule)
+	allQ  int    // finite all-shortest-paths answers compared with the spec's set
+	allP  int    // paths in them
+	fromQ int    // From() answers judged
+	selfQ int // answers to a -> a on the absent id judged
 }
 
 func (k *checker) fail(routine, what, f string, a ...any) {
 	k.fails++
 	cs := k.raw // the spec-emitted case verbatim: replayable alone
-	k.sum.Fail("path:"+routine+":"+what, fmt.Sprintf("[%s/%s ids=%v] ", k.kind, k.view, k.ids)+fmt.Sprintf(f, a...)+" graph n="+fmt.Sprint(k.c.N)+" e="+fmt.Sprint(k.c.E), cs)
+	k.sum.Fail("path:"+k.tag+routine+":"+what, fmt.Sprintf("[%s/%s ids=%v] ", k.kind, k.view, k.ids)+fmt.Sprintf(f, a...)+" graph n="+fmt.Sprint(k.c.N)+" e="+fmt.Sprint(k.c.E), cs)
 }
 
 func (k *checker) real(m int) int64 { return k.ids[m-1] }
@@ -216,6 +231,9 @@ func (k *checker) checkOneAlt(routine string, s, t int, p []graph.Node, w float6
 
 // reps: how often a randomised query is repeated.
 func (k *checker) reps() int {
+	if k.nreps > 0 {
+		return k.nreps
+	}
 	if k.c.ZCyc {
 		return 25
 	}
@@ -235,6 +253,8 @@ func (k *checker) checkAll(routine string, s, t int, ps [][]graph.Node, w float6
 		}
 		return
 	}
+	k.allQ++
+	k.allP += len(ps)
 	seen := map[string]bool{}
 	for _, p := range ps {
 		mp, ok := k.models(p)
@@ -267,6 +287,51 @@ func (k *checker) checkUnique(routine string, s, t int, unique bool) {
 			k.fail(routine, "unique", "%d->%d unique=false but exactly one shortest walk exists", s, t)
 		}
 	}
+}
+
+// checkFrom judges Shortest.From / ShortestAlts.From of the tree returned for source s by looking
+// up the spec's src table ("the starting node of the paths held by" the tree).
+func (k *checker) checkFrom(routine string, s int, from func() graph.Node) {
+	if len(k.c.Src) < s {
+		return // a case file printed before the table existed
+	}
+	n := from() // a getter; a panic in it is caught by the watchdog of the graph run
+	k.fromQ++
+	if n == nil {
+		k.fail(routine, "from", "From() of the tree for source %d is nil, spec: node %d", s, k.c.Src[s-1])
+		return
+	}
+	if m, ok := k.r2m[n.ID()]; !ok || int(m) != k.c.Src[s-1] {
+		k.fail(routine, "from", "From() of the tree for source %d has id %d (model node %d), spec: node %d (id %d)", s, n.ID(), m, k.c.Src[s-1], k.real(k.c.Src[s-1]))
+	}
+}
+
+// checkSelfAbsent judges one answer (paths, weight) to a query a -> a on the absent id a: it must be
+// one of the spec's legal answers (selfabsent), and the nodes of a returned path must carry the
+// queried id (this is where the package's own node type is handed out).
+func (k *checker) checkSelfAbsent(routine string, a int, ps [][]graph.Node, w float64) {
+	if len(k.c.SelfAbsent) == 0 {
+		return
+	}
+	k.selfQ++
+	if len(ps) > 1 {
+		k.fail(routine, "self-absent", "%d paths returned for %d->%d on an id that is not in the graph", len(ps), a, a)
+		return
+	}
+	var mp []int64
+	if len(ps) == 1 {
+		var ok bool
+		if mp, ok = k.models(ps[0]); !ok || len(mp) == 0 {
+			k.fail(routine, "self-absent", "%d->%d on an id that is not in the graph returned the path %v with a nil or foreign node", a, a, ps[0])
+			return
+		}
+	}
+	for _, r := range k.c.SelfAbsent {
+		if key(r.P) == key(mp) && len(r.P) == len(mp) && sameW(w, r.W) {
+			return
+		}
+	}
+	k.fail(routine, "self-absent", "%d->%d on an id that is not in the graph returned (path %v, weight %v); the legal answers are %v", a, a, mp, w, k.c.SelfAbsent)
 }
 
 const callLimit = 60 * time.Second
@@ -318,6 +383,7 @@ func (k *checker) singleSource(tg tgraph) {
 		// ---- DijkstraFrom
 		var sh path.Shortest
 		if ok, pan := k.run("DijkstraFrom", negEdge, func() { sh = path.DijkstraFrom(sn, tg) }); ok {
+			k.checkFrom("DijkstraFrom", s, func() graph.Node { return sh.From() })
 			if negEdge {
 				k.fail("DijkstraFrom", "nopanic", "source %d reaches a negative edge but DijkstraFrom did not panic", s)
 			} else {
@@ -365,6 +431,7 @@ func (k *checker) singleSource(tg tgraph) {
 		// ---- DijkstraAllFrom
 		var sa path.ShortestAlts
 		if ok, _ := k.run("DijkstraAllFrom", negEdge, func() { sa = path.DijkstraAllFrom(sn, tg) }); ok {
+			k.checkFrom("DijkstraAllFrom", s, func() graph.Node { return sa.From() })
 			if negEdge {
 				k.fail("DijkstraAllFrom", "nopanic", "source %d reaches a negative edge but DijkstraAllFrom did not panic", s)
 			} else {
@@ -375,6 +442,7 @@ func (k *checker) singleSource(tg tgraph) {
 		// ---- BellmanFordFrom
 		var bok bool
 		if ok, _ := k.run("BellmanFordFrom", false, func() { sh, bok = path.BellmanFordFrom(sn, tg) }); ok {
+			k.checkFrom("BellmanFordFrom", s, func() graph.Node { return sh.From() })
 			if bok == negCyc {
 				k.fail("BellmanFordFrom", "negcycle-flag", "source %d: ok=%v but the spec says negative cycle reachable=%v", s, bok, negCyc)
 			} else if bok {
@@ -400,6 +468,7 @@ func (k *checker) singleSource(tg tgraph) {
 
 		// ---- BellmanFordAllFrom
 		if ok, _ := k.run("BellmanFordAllFrom", false, func() { sa, bok = path.BellmanFordAllFrom(sn, tg) }); ok {
+			k.checkFrom("BellmanFordAllFrom", s, func() graph.Node { return sa.From() })
 			if bok == negCyc {
 				k.fail("BellmanFordAllFrom", "negcycle-flag", "source %d: ok=%v but the spec says negative cycle reachable=%v", s, bok, negCyc)
 			} else if bok {
@@ -433,6 +502,7 @@ func (k *checker) singleSource(tg tgraph) {
 					name := []string{"AStar(nil)", "AStar(null)", "AStar(half)"}[hi]
 					var as path.Shortest
 					if ok, _ := k.run(name, false, func() { as, _ = path.AStar(sn, tn, tg, h) }); ok {
+						k.checkFrom(name, s, func() graph.Node { return as.From() })
 						p, w := as.To(tn.ID())
 						k.checkOne(name, s, t, p, w)
 					}
@@ -515,6 +585,31 @@ func (k *checker) allPairs() {
 		for _, s := range k.queries() {
 			for _, t := range k.queries() {
 				if s == t && !k.present(s) {
+					// the answer is left open by the documentation: one of the spec's legal answers
+					aid := k.real(s)
+					var p []graph.Node
+					var w float64
+					if ok, _ := k.run(routine+".Between", false, func() { p, w, _ = ap.Between(aid, aid) }); ok {
+						var ps [][]graph.Node
+						if p != nil {
+							ps = [][]graph.Node{p}
+						}
+						k.checkSelfAbsent(routine+".Between", s, ps, w)
+					}
+					var ps [][]graph.Node
+					if ok, _ := k.run(routine+".AllBetween", false, func() { ps, w = ap.AllBetween(aid, aid) }); ok {
+						k.checkSelfAbsent(routine+".AllBetween", s, ps, w)
+					}
+					var fs [][]graph.Node
+					if ok, _ := k.run(routine+".AllBetweenFunc", false, func() {
+						ap.AllBetweenFunc(aid, aid, func(p []graph.Node) { fs = append(fs, append([]graph.Node(nil), p...)) })
+					}); ok {
+						fw := math.Inf(1) // AllBetweenFunc reports no weight: a path handed to fn is the trivial one
+						if len(fs) > 0 {
+							fw = 0
+						}
+						k.checkSelfAbsent(routine+".AllBetweenFunc", s, fs, fw)
+					}
 					continue
 				}
 				sid, tid := k.real(s), k.real(t)
@@ -661,10 +756,15 @@ func build(c *gcase, kind string, ids []int64) (graph.Graph, error) {
 		}
 		return g, nil
 	case "matrix":
-		for i := 0; i <= c.N; i++ {
-			if ids[i] != int64(i) {
-				return nil, fmt.Errorf("matrix kind needs ids 0..n")
+		seen := make([]bool, c.N)
+		for i := 0; i < c.N; i++ {
+			if ids[i] < 0 || ids[i] >= int64(c.N) || seen[ids[i]] {
+				return nil, fmt.Errorf("matrix kind needs a permutation of the ids 0..n-1")
 			}
+			seen[ids[i]] = true
+		}
+		if ids[c.N] != int64(c.N) {
+			return nil, fmt.Errorf("matrix kind needs the absent id n")
 		}
 		if c.N == 0 {
 			return nil, nil
@@ -728,6 +828,8 @@ func replaySmall(in *core.Lines, args []string, seed int64, sum *core.Summary) e
 	if err := json.Unmarshal([]byte(argOf(args, "ids", "[[1,2,3,4,5,6]]")), &idsets); err != nil {
 		return err
 	}
+	tag := argOf(args, "tag", "")                     // prefix of the signatures of the stage
+	nreps, _ := strconv.Atoi(argOf(args, "reps", "0")) // repetitions of the randomised queries (0: default)
 	nw := 8
 	type job struct {
 		line []byte
@@ -743,7 +845,7 @@ func replaySmall(in *core.Lines, args []string, seed int64, sum *core.Summary) e
 			defer wg.Done()
 			local := &core.Summary{Extra: map[string]any{}}
 			for j := range jobs {
-				if err := oneCase(j.line, j.n, kinds, views, idsets, local); err != nil {
+				if err := oneCase(j.line, j.n, kinds, views, idsets, tag, nreps, local); err != nil {
 					mu.Lock()
 					if firstErr == nil {
 						firstErr = err
@@ -778,7 +880,7 @@ func replaySmall(in *core.Lines, args []string, seed int64, sum *core.Summary) e
 	return firstErr
 }
 
-func oneCase(b []byte, lineNo int, kinds, views []string, idsets [][]int64, sum *core.Summary) error {
+func oneCase(b []byte, lineNo int, kinds, views []string, idsets [][]int64, tag string, nreps int, sum *core.Summary) error {
 	var c gcase
 	if err := json.Unmarshal(b, &c); err != nil {
 		return fmt.Errorf("line %d: %v", lineNo, err)
@@ -788,10 +890,31 @@ func oneCase(b []byte, lineNo int, kinds, views []string, idsets [][]int64, sum 
 	}
 	raw := json.RawMessage(b)
 	for _, kind := range kinds {
-		for _, ids := range idsets {
-			if kind == "matrix" {
-				ids = []int64{0, 1, 2, 3, 4, 5, 6, 7}
+		sets := idsets
+		if kind == "matrix" {
+			// a dense matrix enumerates its nodes in id order: the ids 0..n-1 in model order, or - tie-rich
+			// family - one binding per node order printed by the spec (model node m sits at position o[m])
+			id0 := make([]int64, c.N+1)
+			for i := range id0 {
+				id0[i] = int64(i)
 			}
+			sets = [][]int64{id0}
+			for oi, o := range c.Orders {
+				if len(o) != c.N {
+					return fmt.Errorf("line %d: order of length %d for %d nodes", lineNo, len(o), c.N)
+				}
+				ids := make([]int64, c.N+1)
+				for m := range o {
+					ids[m] = o[m] - 1
+				}
+				ids[c.N] = int64(c.N)
+				if oi == 0 {
+					sets = sets[:0]
+				}
+				sets = append(sets, ids)
+			}
+		}
+		for _, ids := range sets {
 			if len(ids) < c.N+1 {
 				return fmt.Errorf("need %d ids", c.N+1)
 			}
@@ -802,7 +925,7 @@ func oneCase(b []byte, lineNo int, kinds, views []string, idsets [][]int64, sum 
 			if g == nil {
 				continue
 			}
-			k := &checker{c: &c, raw: raw, sum: sum, ids: ids[:c.N+1], g: g, kind: kind, r2m: map[int64]int64{}}
+			k := &checker{c: &c, raw: raw, sum: sum, ids: ids[:c.N+1], g: g, kind: kind, r2m: map[int64]int64{}, tag: tag, nreps: nreps}
 			for i, id := range k.ids {
 				k.r2m[id] = int64(i + 1)
 			}
@@ -827,9 +950,10 @@ func oneCase(b []byte, lineNo int, kinds, views []string, idsets [][]int64, sum 
 				}
 				sum.Count("graph-runs", 1)
 			}
-			if kind == "matrix" {
-				break
-			}
+			sum.Count("all-paths-sets", k.allQ)
+			sum.Count("all-paths-paths", k.allP)
+			sum.Count("from-queries", k.fromQ)
+			sum.Count("self-absent-queries", k.selfQ)
 		}
 	}
 	sum.Cases++
